@@ -27,7 +27,7 @@ RULE = ("case = (function, dimension d, key of rho, key of sigma[, key of tau | 
         "plus nearly-equal states near:a|b = (1-1e-3)a+1e-3 b and the two generic-basis kets u0,u{d-1}); ALL ordered pairs "
         "of the state alphabet are executed for definitions / inequalities / extremes, all unordered pairs for symmetry, "
         "all triples (d=2,3 quick; d<=4 thorough; the fixed sub-alphabet SUB above that) for the triangle inequality, "
-        "all catalogue unitaries x pairs (full alphabet at d=2, SUB otherwise) for unitary invariance; a value case is "
+        "all catalogue unitaries x pairs (full alphabet at d=2,3 in thorough; the sub-alphabet SUB otherwise) for unitary invariance; a value case is "
         "non-trivial iff rho != sigma and the supports are not orthogonal (the value is not an extreme); a rejection "
         "case is non-trivial iff the control violates exactly one density-operator condition by >= 100x the library's "
         "own tolerance; states = distinct cases, transitions = toqito calls")
@@ -486,7 +486,7 @@ def symmetry_check(case):
 # ------------------------------------------------------------------------------------------------ C13.unitary_invariance
 def unitary_cases(tier, seed):
     for d in dims_for(tier):
-        full = d == 2 or (tier == "thorough" and d == 3)
+        full = tier == "thorough" and d <= 3
         keys = list(states(d)) if full else sub_keys(d)
         for fn in ALL_FNS + ["trace_norm"]:
             for u in cat.unitaries(d):
